@@ -37,11 +37,12 @@ def _lambda_obj(lam):
 
 
 class Widths:
-    def __init__(self, ck, rule_w, rule_p, kernel, nfrac_opt, operands):
+    def __init__(self, ck, rule_w, rule_p, kernel, nfrac_opt, operands, path_guards=()):
         self.ck, self.rule_w, self.rule_p, self.k = ck, rule_w, rule_p, kernel
         self.nf = nfrac_opt
         self.operands = operands
         self.reports = []
+        self.path_guards = list(path_guards)      # (substituted test, polarity, raw, stmt) of the kernel path
 
     def T(self, e):
         return mkterm(e, rename=lambda d: d).subst({("v", "n_frac"): self.nf})
@@ -111,22 +112,36 @@ class Widths:
         raise NotATerm("%s" % src(e)[:50])
 
     def bounds(self, n):
-        """[(T, slack)] : when the node is a machine integer, T <= 63 (+slack) holds"""
+        """[(T, slack)] : facts `T <= 63 + (1 - slack)` known on this path / for machine operands.
+        A path guard `T >= thr` that is False (or `T < thr` that is True) with thr the word maximum gives T <= 63."""
         out = []
-        for g in n.guards:
-            t = g
-            neg = False
+        for g in self.path_guards:
+            t, pol = g[0], g[1]
             while isinstance(t, ast.UnaryOp) and isinstance(t.op, ast.Not):
-                t, neg = t.operand, not neg
-            if isinstance(t, ast.Compare) and len(t.ops) == 1 and not neg:
-                l, op, r = t.left, t.ops[0], t.comparators[0]
-                thr_ok = _threshold_ok(self.ck.prog, r) or (isinstance(r, ast.Constant) and r.value == CAP)
-                if thr_ok and isinstance(op, (ast.GtE, ast.Gt)):
-                    try:
-                        T = self.T(l)
-                    except NotATerm:
-                        continue
-                    out.append((T, 1 if isinstance(op, ast.GtE) else 0))
+                t, pol = t.operand, not pol
+            if not (isinstance(t, ast.Compare) and len(t.ops) == 1):
+                continue
+            l, op, r = t.left, t.ops[0], t.comparators[0]
+            # normalise to  T OP thr
+            def is_thr(e):
+                return _threshold_ok(self.ck.prog, e) or (isinstance(e, ast.Constant) and e.value == CAP)
+            if is_thr(r) and not is_thr(l):
+                T_, opc = l, type(op)
+            elif is_thr(l) and not is_thr(r):
+                T_, opc = r, {ast.Lt: ast.Gt, ast.Gt: ast.Lt, ast.LtE: ast.GtE, ast.GtE: ast.LtE}.get(type(op))
+            else:
+                continue
+            # truth of (T >= thr): derive an upper bound when it is false
+            if opc is ast.GtE and not pol or opc is ast.Lt and pol:
+                slack = 1          # T <= thr - 1 = 63
+            elif opc is ast.Gt and not pol or opc is ast.LtE and pol:
+                slack = 0          # T <= thr = 64
+            else:
+                continue
+            try:
+                out.append((self.T(T_), slack))
+            except NotATerm:
+                continue
         for o in n.ops:
             out.append((Term.var(o + ".n_word"), 1))      # a machine operand has n_word <= 63
         return out
@@ -143,7 +158,7 @@ class Widths:
                 ck.ok(self.rule_w, self.k, what + " [bits %s <= %s + %d]" % (n.W.show(), T.show(), slack), node)
                 return
         ck.bad(self.rule_w, self.k, what, "%s:%s" % (self.k.name, role), node,
-               {"needs_bits": n.W.show(), "guards": [src(g)[:60] for g in n.guards],
+               {"needs_bits": n.W.show(), "guards": [(src(g[0])[:60], g[1]) for g in self.path_guards],
                 "meaning": "no guard bounds the exact result to 64 bits before it leaves int64: the intermediate silently wraps modulo 2^64"})
 
     def check_mix(self, l, r, n, role, node):
@@ -157,14 +172,23 @@ class Widths:
         if l.ops == r.ops:
             ck.ok(self.rule_p, self.k, what + " (same operand)", node, nontrivial=False)
             return
-        # a guard that is implied by mixed signedness?
-        for g in n.guards:
-            for c in ast.walk(g):
+        # an object cast that is taken whenever signedness differs?  (such a path shows the operands as always_obj; on the
+        # remaining paths the guard `x.signed != y.signed` is known false)
+        for g in self.path_guards:
+            for c in ast.walk(g[0]):
+                if isinstance(c, ast.Compare) and isinstance(c.ops[0], ast.NotEq) and {dotted(c.left), dotted(c.comparators[0])} == {"x.signed", "y.signed"} and not g[1]:
+                    ck.ok(self.rule_p, self.k, what + " (signedness known equal on this path)", node)
+                    return
+                if isinstance(c, ast.Compare) and isinstance(c.ops[0], ast.Eq) and {dotted(c.left), dotted(c.comparators[0])} == {"x.signed", "y.signed"} and g[1]:
+                    ck.ok(self.rule_p, self.k, what + " (signedness known equal on this path)", node)
+                    return
+        for g in []:
+            for c in []:
                 if isinstance(c, ast.Compare) and isinstance(c.ops[0], ast.NotEq) and {dotted(c.left), dotted(c.comparators[0])} == {"x.signed", "y.signed"}:
                     ck.ok(self.rule_p, self.k, what + " (object cast when signedness differs)", node)
                     return
         ck.bad(self.rule_p, self.k, what, "%s:%s" % (self.k.name, role), node,
-               {"guards": [src(g)[:60] for g in n.guards], "meaning": "for x.signed != y.signed with both words below 64 bits the operation runs in float64 and is rounded to 53 bits"})
+               {"guards": [(src(g[0])[:60], g[1]) for g in self.path_guards], "meaning": "for x.signed != y.signed with both words below 64 bits the operation runs in float64 and is rounded to 53 bits"})
 
 
 def kernel_widths(ck, rule_w, rule_p, names=("add", "sub", "mul")):
@@ -183,7 +207,7 @@ def kernel_widths(ck, rule_w, rule_p, names=("add", "sub", "mul")):
                 if pf.end != "return" or pf.ret is None:
                     continue
                 n += 1
-                wd = Widths(ck, rule_w, rule_p, k, nf, ops)
+                wd = Widths(ck, rule_w, rule_p, k, nf, ops, pf.guards)
                 try:
                     wd.an(pf.ret)
                 except NotATerm as e:
